@@ -49,6 +49,8 @@ type Unit struct {
 }
 
 type Exec struct {
+	recovering bool // executing deferred calls after a panic: recover() returns a non-nil value
+	localTyp map[string]types.Type // scalar frame cells: key -> Go type
 	u       *Universe
 	prog    *ssa.Program
 	pkgs    map[string]*packages.Package
@@ -83,6 +85,7 @@ type Event struct {
 	Callee string // contract key or function name (calls)
 	Args   []Val
 	St     *State // state at the event (before the effect for calls, after for stores)
+	Pre    *State // mapupdate: the state before the update
 	Loc    *Loc   // store target
 	Val    Val    // stored value / allocated reference
 	Typ    types.Type
@@ -118,6 +121,12 @@ type frame struct {
 	params   map[string]Val
 	rets     []retInfo
 	defers   []*ssa.Defer
+	// the last point at which a defer was registered (functions with a recover block): the state a
+	// panic raised later is modelled from
+	deferState *State
+	deferGuard string
+	deferCount int
+	recovered  *retInfo // the exit taken after a deferred function recovered from a panic
 	loops    map[*ssa.BasicBlock]*loopRec
 	allocKey map[*ssa.Alloc]string
 	id       int
@@ -417,6 +426,9 @@ func (ex *Exec) execBody(fr *frame, st *State, guard string) (string, *State, []
 			incoming[to] = append(incoming[to], edgeIn{b, eg, es})
 		})
 	}
+	if fr.top && fn.Recover != nil && fr.deferState != nil {
+		ex.recoveredPath(fr)
+	}
 	// merge returns
 	if len(fr.rets) == 0 {
 		return "false", st, nil
@@ -671,7 +683,7 @@ func (ex *Exec) mergeVals(vs []Val, ins []edgeIn, hint string) Val {
 	}
 	same := true
 	for _, v := range vs[1:] {
-		if v.T != v0.T || (v.Loc == nil) != (v0.Loc == nil) {
+		if v.T != v0.T || (v.Loc == nil) != (v0.Loc == nil) || !samePtrAlts(v, v0) {
 			same = false
 		}
 	}
@@ -679,8 +691,12 @@ func (ex *Exec) mergeVals(vs []Val, ins []edgeIn, hint string) Val {
 		return v0
 	}
 	for _, v := range vs {
-		if v.T == "" {
-			ex.failf("cannot merge address-only pointer values (%s)", hint)
+		if v.T == "" || len(v.PtrAlts) > 0 {
+			var guards []string
+			for _, in := range ins {
+				guards = append(guards, in.guard)
+			}
+			return choicePtr(guards, vs)
 		}
 	}
 	n := u.freshConst(hint, sortOf(v0.Typ))
@@ -745,6 +761,7 @@ func (ex *Exec) enterLoop(fr *frame, h *ssa.BasicBlock, body map[*ssa.BasicBlock
 	}
 	sort.Strings(ks)
 	precise := ex.loopPrecise(fr, lr, s)
+	var wfLater []string
 	for _, k := range ks {
 		if k == "*new" {
 			u.keySort("next", SInt)
@@ -777,7 +794,14 @@ func (ex *Exec) enterLoop(fr *frame, h *ssa.BasicBlock, body map[*ssa.BasicBlock
 			u.set(s2, k, srt, cur)
 			continue
 		}
-		u.havoc(s2, k)
+		hv := u.havoc(s2, k)
+		if lt, ok := ex.localTyp[k]; ok && isLocalKey(k) {
+			// a local of slice / interface / pointer / map type holds a well-formed value of that type
+			// in every iteration (Go's type system; the havoc forgets which one)
+			if f := ex.wf(Val{T: hv, Typ: lt}, s2); f != "true" {
+				wfLater = append(wfLater, f)
+			}
+		}
 	}
 	kk := u.havoc(s2, lr.kKey)
 	u.fact(implies(g, app(">=", kk, "0")))
@@ -786,6 +810,9 @@ func (ex *Exec) enterLoop(fr *frame, h *ssa.BasicBlock, body map[*ssa.BasicBlock
 		u.fact(implies(g, app(">=", u.get(s2, "next"), smtName("next"))))
 	}
 	lr.modLocal = ks
+	for _, f := range wfLater {
+		u.fact(implies(g, f))
+	}
 	for _, inv := range lr.invs {
 		env := ex.specEnv(fr, s2, lr)
 		t, err := env.evalBool(inv.Expr)
@@ -1213,11 +1240,18 @@ func (ex *Exec) instr(fr *frame, in ssa.Instruction, g string, s *State) string 
 		fr.allocKey[in] = key
 		u.keySort(key, sortOf(t))
 		s.vars[key] = zeroTerm(t)
+		if ex.localTyp == nil {
+			ex.localTyp = map[string]types.Type{}
+		}
+		ex.localTyp[key] = t
 		fr.regs[in] = Val{Typ: in.Type(), Loc: &Loc{Kind: LLocal, Key: key, Typ: t}}
 		return g
 	case *ssa.Store:
 		addr := ex.value(fr, in.Addr, s)
 		val := ex.value(fr, in.Val, s)
+		if len(addr.PtrAlts) > 0 {
+			return ex.storeChoice(fr, in, addr, val, g, s)
+		}
 		l := ex.locOf(addr)
 		if l == nil {
 			ex.failf("store through unknown pointer")
@@ -1229,7 +1263,7 @@ func (ex *Exec) instr(fr *frame, in ssa.Instruction, g string, s *State) string 
 			ex.ptrLocals(s)[l.Key] = val
 			return g
 		}
-		if l.Kind == LLocal && val.Loc != nil && val.T == "" {
+		if l.Kind == LLocal && ((val.Loc != nil && val.T == "") || len(val.PtrAlts) > 0) {
 			// a pointer-valued local holding a known address: keep the Val out of band
 			ex.ptrLocals(s)[l.Key] = val
 			s.vars[l.Key] = "0"
@@ -1254,6 +1288,9 @@ func (ex *Exec) instr(fr *frame, in ssa.Instruction, g string, s *State) string 
 		x := ex.value(fr, in.X, s)
 		switch in.Op {
 		case token.MUL:
+			if len(x.PtrAlts) > 0 {
+				return ex.loadChoice(fr, in, x, g, s)
+			}
 			l := ex.locOf(x)
 			if l == nil {
 				ex.failf("load through unknown pointer %s", in.X.Name())
@@ -1462,9 +1499,13 @@ func (ex *Exec) instr(fr *frame, in ssa.Instruction, g string, s *State) string 
 		k := ex.value(fr, in.Key, s)
 		v := ex.value(fr, in.Value, s)
 		g = u.define("g", SBool, and(g, not(eq(m.T, "0"))))
+		var pre *State
+		if ex.traceOn {
+			pre = s.clone()
+		}
 		ex.mapSet(s, m, k, v)
 		if ex.traceOn {
-			ex.trace = append(ex.trace, Event{Kind: "mapupdate", Guard: g, Instr: in, St: s.clone(), Args: []Val{m, k, v}, Depth: len(ex.stack) - 1})
+			ex.trace = append(ex.trace, Event{Kind: "mapupdate", Guard: g, Instr: in, St: s.clone(), Pre: pre, Args: []Val{m, k, v}, Depth: len(ex.stack) - 1})
 		}
 		return g
 	case *ssa.Lookup:
@@ -1503,8 +1544,15 @@ func (ex *Exec) instr(fr *frame, in ssa.Instruction, g string, s *State) string 
 		return ex.call(fr, in, g, s)
 	case *ssa.Defer:
 		fr.defers = append(fr.defers, in)
+		if fr.top && fr.fn.Recover != nil {
+			fr.deferState, fr.deferGuard, fr.deferCount = s.clone(), g, len(fr.defers)
+		}
 		return g
 	case *ssa.RunDefers:
+		if fr.top && fr.fn.Recover != nil && fr.deferGuard != "" {
+			// base the panic state on this one (every local exists here); it is havoced before use
+			fr.deferState, fr.deferCount = s.clone(), len(fr.defers)
+		}
 		for i := len(fr.defers) - 1; i >= 0; i-- {
 			d := fr.defers[i]
 			var res Val
@@ -1610,6 +1658,28 @@ func (ex *Exec) binop(fr *frame, in *ssa.BinOp, s *State) Val {
 	switch in.Op {
 	case token.EQL, token.NEQ:
 		var r string
+		if len(x.PtrAlts) > 0 || len(y.PtrAlts) > 0 {
+			c, other := x, y
+			if len(c.PtrAlts) == 0 {
+				c, other = y, x
+			}
+			if other.T != "0" || len(other.PtrAlts) > 0 || other.Loc != nil {
+				ex.failf("comparison of a multi-address pointer with something other than nil")
+			}
+			var isNil []string
+			for _, a := range c.PtrAlts {
+				switch {
+				case a.V.Loc != nil:
+				case a.V.T != "":
+					isNil = append(isNil, and(a.Guard, eq(a.V.T, "0")))
+				}
+			}
+			r = or(isNil...)
+			if in.Op == token.NEQ {
+				r = not(r)
+			}
+			return Val{T: r, Typ: t}
+		}
 		switch srt {
 		case SSlice:
 			other := x
@@ -2211,7 +2281,7 @@ func mergePtrLocal(ins []edgeIn, k string) (Val, bool) {
 	}
 	same := true
 	for _, v := range vs[1:] {
-		if v.Refl != vs[0].Refl || v.T != vs[0].T || v.Loc != vs[0].Loc {
+		if v.Refl != vs[0].Refl || v.T != vs[0].T || v.Loc != vs[0].Loc || !samePtrAlts(v, vs[0]) {
 			same = false
 		}
 	}
@@ -2219,7 +2289,16 @@ func mergePtrLocal(ins []edgeIn, k string) (Val, bool) {
 		return vs[0], true
 	}
 	if vs[0].Refl == nil {
-		return Val{}, false
+		for _, v := range vs {
+			if v.Refl != nil || (v.Loc == nil && len(v.PtrAlts) == 0 && v.T != "0") {
+				return Val{}, false
+			}
+		}
+		var guards []string
+		for _, in := range ins {
+			guards = append(guards, in.guard)
+		}
+		return choicePtr(guards, vs), true
 	}
 	c := &reflVal{Kind: "choice"}
 	for i, v := range vs {
@@ -2229,4 +2308,156 @@ func mergePtrLocal(ins []edgeIn, k string) (Val, bool) {
 		c.Alts = append(c.Alts, reflAlt{ins[i].guard, v})
 	}
 	return Val{Typ: vs[0].Typ, Refl: c}, true
+}
+
+// ---- pointers that are one of several known addresses ----
+
+func samePtrAlts(a, b Val) bool {
+	if len(a.PtrAlts) != len(b.PtrAlts) {
+		return false
+	}
+	return len(a.PtrAlts) == 0 || &a.PtrAlts[0] == &b.PtrAlts[0]
+}
+
+// choicePtr: the pointer that is vs[i] when guards[i] holds.
+func choicePtr(guards []string, vs []Val) Val {
+	out := Val{Typ: vs[0].Typ}
+	for i, v := range vs {
+		if len(v.PtrAlts) > 0 {
+			for _, a := range v.PtrAlts {
+				out.PtrAlts = append(out.PtrAlts, PtrAlt{and(guards[i], a.Guard), a.V})
+			}
+			continue
+		}
+		out.PtrAlts = append(out.PtrAlts, PtrAlt{guards[i], v})
+	}
+	return out
+}
+
+// altLoc: the location alternative a denotes, or nil for the nil pointer.
+func (ex *Exec) altLoc(a PtrAlt) *Loc {
+	if a.V.Loc != nil {
+		return a.V.Loc
+	}
+	if a.V.T == "0" {
+		return nil
+	}
+	return ex.locOf(a.V)
+}
+
+func (ex *Exec) loadChoice(fr *frame, in *ssa.UnOp, x Val, g string, s *State) string {
+	u := ex.u
+	var vals []Val
+	var guards []string
+	for _, a := range x.PtrAlts {
+		l := ex.altLoc(a)
+		if l == nil {
+			g = and(g, not(a.Guard)) // nil dereference panics: the path continues only otherwise
+			continue
+		}
+		if l.Kind != LLocal && l.Base != "" && a.V.Loc == nil {
+			g = and(g, implies(a.Guard, not(eq(l.Base, "0"))))
+		}
+		v := u.load(s, l)
+		v.Typ = in.Type()
+		vals = append(vals, v)
+		guards = append(guards, a.Guard)
+	}
+	if len(vals) == 0 {
+		fr.regs[in] = Val{T: u.freshConst("deadload", sortOf(in.Type())), Typ: in.Type()}
+		return g
+	}
+	if vals[0].T == "" {
+		ex.failf("load of a struct value through a multi-address pointer")
+	}
+	n := u.freshConst(in.Name(), sortOf(in.Type()))
+	for i, v := range vals {
+		u.fact(implies(and(g, guards[i]), eq(n, v.T)))
+	}
+	rv := Val{T: n, Typ: in.Type()}
+	u.fact(implies(g, ex.wf(rv, s)))
+	fr.regs[in] = rv
+	return g
+}
+
+func (ex *Exec) storeChoice(fr *frame, in *ssa.Store, addr, val Val, g string, s *State) string {
+	u := ex.u
+	if val.T == "" {
+		val.T = ex.term(val, "stored value")
+	}
+	for _, a := range addr.PtrAlts {
+		l := ex.altLoc(a)
+		if l == nil {
+			g = and(g, not(a.Guard))
+			continue
+		}
+		cur := u.load(s, l)
+		if cur.T == "" {
+			ex.failf("store of a struct value through a multi-address pointer")
+		}
+		nv := Val{T: ite(a.Guard, val.T, cur.T), Typ: val.Typ}
+		u.storeLoc(s, l, nv)
+		if ex.traceOn && l.Kind == LField {
+			ex.trace = append(ex.trace, Event{Kind: "store", Guard: and(g, a.Guard), Instr: in, St: s.clone(), Loc: l, Val: val, Typ: l.Typ, Depth: len(ex.stack) - 1})
+		}
+	}
+	return g
+}
+
+// recoveredPath models the second way out of a function that defers a recovering closure: a panic
+// raised anywhere after the defer was registered, the deferred calls running with recover()
+// returning that (non-nil) panic value, and — if they return normally — the function returning the
+// current values of its named results (the SSA Recover block). The state at the panic is any state:
+// the whole heap and every local of the frame are havoced (the allocation counter only grows).
+// The resulting exit is kept apart from the normal returns (fr.recovered); postconditions are
+// checked at it separately.
+func (ex *Exec) recoveredPath(fr *frame) {
+	u := ex.u
+	s := fr.deferState.clone()
+	g := fr.deferGuard
+	before := ""
+	if _, ok := u.keySorts["next"]; ok {
+		before = u.get(s, "next")
+	}
+	ex.havocAll(s)
+	pfx := fmt.Sprintf("L!f%d.", fr.id)
+	var lk []string
+	for k := range s.vars {
+		if strings.HasPrefix(k, pfx) {
+			lk = append(lk, k)
+		}
+	}
+	sort.Strings(lk)
+	for _, k := range lk {
+		if _, ok := u.keySorts[k]; ok {
+			u.havoc(s, k)
+		}
+	}
+	if before != "" {
+		u.fact(implies(g, app(">=", u.get(s, "next"), before)))
+	}
+	saved := ex.recovering
+	ex.recovering = true
+	defer func() { ex.recovering = saved }()
+	rets := len(fr.rets)
+	for i := fr.deferCount - 1; i >= 0; i-- {
+		g, _ = ex.callCommon(fr, &fr.defers[i].Call, fr.defers[i], g, s)
+		if g == "false" {
+			return
+		}
+	}
+	for _, in := range fr.fn.Recover.Instrs {
+		switch in := in.(type) {
+		case *ssa.Return:
+			var res []Val
+			for _, r := range in.Results {
+				res = append(res, ex.value(fr, r, s))
+			}
+			fr.recovered = &retInfo{g, s, res}
+		case *ssa.DebugRef:
+		default:
+			g = ex.instr(fr, in.(ssa.Instruction), g, s)
+		}
+	}
+	fr.rets = fr.rets[:rets]
 }
